@@ -1,5 +1,7 @@
 import SJ.Proofs.LexTables
 import SJ.Proofs.LexCorrect
+import SJ.Proofs.LexTopParser
+import SJ.Proofs.LexTopF32
 /-!
 # C07 — float_roundtrip: decimal → float conversion is correctly rounded
 
@@ -9,6 +11,9 @@ Layered as in DESIGN §6 C07. Model: `SJ.Model.Lexical` (lexical + the `float_ro
 namespace SJ.Props.C07
 open SJ SJ.Gen SJ.Proofs.LexTables SJ.Model.Num SJ.Model.Lexical SJ.Spec.Ieee
 open SJ.Proofs.LexSplit SJ.Proofs.LexRound SJ.Proofs.LexBh SJ.Proofs.LexFast SJ.Proofs.LexCorrect SJ.Proofs.NumInt
+open SJ.Proofs.LexModerateOk SJ.Proofs.LexTopBh SJ.Proofs.LexTopParse SJ.Proofs.LexTopFloat SJ.Proofs.LexTopSpec
+open SJ.Proofs.LexTopRoundtrip SJ.Proofs.LexTopParser
+open SJ.Proofs.NumLink (toNumLit)
 
 /-- **cached_power_accuracy.** What holds for the extracted 80-bit cached powers, stated exactly: the ten
     small powers `10^0 … 10^9` are *exact* (`mant · 2^exp = 10^i`) and agree with the integer table; each
@@ -88,46 +93,213 @@ example : intoFloat f64Consts { mant := 2 ^ 63 + 2 ^ 10, exp := -63 } = 0x3ff000
     value lies (`NearBelow`: strictly between the midpoint below `b` and the midpoint above `b + 1`), `bhcomp` returns
     the correctly rounded value — `large_atof` (exact integer, one rounding with a sticky flag) or `small_atof`
     (comparison with `b + h`), including the truncation to `MAX_DIGITS - 1` digits plus a sticky digit, justified by
-    `2^(mbits+2) · 5^(qexp+1) < 10^(MAX_DIGITS-1)` (no midpoint has more significant digits). Hypothesis `hz`
-    excludes the shape of known finding C07-zero-tail: if digits are dropped, one of them is non-zero. -/
+    `2^(mbits+2) · 5^(qexp+1) < 10^(MAX_DIGITS-1)` (no midpoint has more significant digits), and including the case
+    that every dropped digit is `0` (then no sticky digit is added — the repair of finding C07-zero-tail — and the
+    mantissa `D·10` at `scaled_exponent` is the same rational as the literal). -/
 theorem c07_bhcomp_exact (single : Bool) (integer fraction : Bytes) (hdi : IsDigits integer) (hdf : IsDigits fraction)
     (hhead : ∀ d r, integer = d :: r → d ≠ 0x30) (hpos : 0 < natOfDigits (integer ++ fraction)) (exponent : Int)
     (hexp1 : -(2 ^ 30 : Int) < exponent) (hexp2 : exponent < 2 ^ 30)
     (hlen : integer.length + fraction.length < 2 ^ 30) (b : Nat) (hb : b < (fmtOf single).infBits)
-    (hz : (fc single).maxDigits - 1 < (sigDigits integer fraction).length →
-      0 < natOfDigits ((sigDigits integer fraction).drop ((fc single).maxDigits - 1)))
     (hnear : NearBelow (fmtOf single) b (dNum (fmtOf single) (natOfDigits (integer ++ fraction)) (exponent - fraction.length))
       (dDen (exponent - fraction.length))) :
     bhcomp (fc single) b integer fraction exponent =
       roundDec (fmtOf single) (natOfDigits (integer ++ fraction)) (exponent - fraction.length) :=
-  bhcomp_eq (fcokOf single) integer fraction hdi hdf hhead hpos exponent hexp1 hexp2 hlen b hb hz hnear
+  bhcomp_ok (fcokOf single) integer fraction hdi hdf hhead hpos exponent hexp1 hexp2 hlen b hb hnear
 
 /-- non-vacuity of the digit-count fact behind the truncation: binary64 and binary32 -/
 example : 2 ^ 54 * 5 ^ 1075 < 10 ^ 768 ∧ 2 ^ 25 * 5 ^ 150 < 10 ^ 113 := by decide +kernel
 
+/-! ## (v) the moderate path -/
+
+/-- **c07_moderate_path_sound.** For every call of `moderate_path(w, me, truncated)` lexical makes — `0 < w < 2^64` the
+    mantissa, `j` digits of value `r < 10^j` cut off (`r = 0` unless `truncated`; digits are cut only at a `u64`
+    overflow, so `r ≠ 0 → 2^64 ≤ 11·w`), `me` the mantissa exponent computed for the true exponent `e0` (equal, or
+    both saturated below `-350` / from `310` on) — the three facts `ModerateOk` the composition needs:
+
+    * `sound`: if `error_is_accurate` accepts the extended product (mantissa × exact small power × truncated large
+      cached power, `mul` = `⌊(a·b + 2^63) / 2^64⌋`, errors booked: `error_scale()` for a truncated mantissa — the repair
+      of finding C07-moderate-truncated —, `error_halfscale()` per rounded multiplication, `+1`, shifted by the final
+      normalisation), then `into_float` of it is the correctly rounded exact decimal;
+    * `near`: if it rejects and the downward-rounded product `b` is finite, the exact decimal lies strictly between the
+      midpoint below `b` and the midpoint above `b + 1` — what `bhcomp` assumes of `b`;
+    * `special`: if it rejects and `b` is infinite, the exact decimal rounds to infinity as well;
+
+    and the two early exits (`exponent + bias < 0` ⇒ `0`, `large_index ≥ 66` ⇒ `∞`) are correct. Both formats.
+    The key quantitative fact (`LexModerate.moderate_main`): the true mantissa is *strictly* within the booked number of
+    units (`4 ≤ err ≤ 68 < 2^(63−mbits)/4`) of the returned one. -/
+theorem c07_moderate_path_sound (single : Bool) (w j r : Nat) (me e0 : Int) (t : Bool) (hw0 : 0 < w) (hw : w < 2 ^ 64)
+    (hr : r < 10 ^ j) (hbig : r ≠ 0 → 2 ^ 64 ≤ 11 * w) (hexact : t = false → r = 0)
+    (hme : (me < -350 ∧ e0 < -350) ∨ (310 ≤ me ∧ 310 ≤ e0) ∨ me = e0) :
+    ModerateOk (fc single) (fmtOf single) w me t (w * 10 ^ j + r) (e0 - j) :=
+  moderate_ok single w j r me e0 t hw0 hw hr hbig hexact hme
+
+/-- non-vacuity, on the literal of finding C07-moderate-truncated (`2305843009213660156999999999999e-242`: mantissa
+    `2305843009213660156`, 12 digits cut, mantissa exponent `-230`): with `error_scale()` booked the estimate is
+    rejected and bhcomp decides; the result is the correctly rounded `0x13ff0ce48391985b` -/
+example : (moderatePath f64Consts 2305843009213660156 (-230) true).2 = false ∧
+    parseTruncatedFloat false [0x32,0x33,0x30,0x35,0x38,0x34,0x33,0x30,0x30,0x39,0x32,0x31,0x33,0x36,0x36,0x30,0x31,0x35,0x36,
+      0x39,0x39,0x39,0x39,0x39,0x39,0x39,0x39,0x39,0x39,0x39,0x39] [] (-242) = 0x13ff0ce48391985b := by decide +kernel
+
+/-- **c07_parse_exact.** The two entry points of lexical are correctly rounded for every argument `de.rs` can pass:
+    `parse_concise_float(m, e)` = nearest to `m · 10^e`; `parse_truncated_float(integer, fraction, e)` = nearest to
+    the digits' value `· 10^(e − |fraction|)` (fast path, moderate path, bhcomp composed). Both formats. -/
+theorem c07_parse_exact (single : Bool) :
+    (∀ (m : Nat) (e : Int), m < 2 ^ 64 → parseConciseFloat single m e = roundDec (fmtOf single) m e) ∧
+    (∀ (integer fraction : Bytes) (e : Int), IsDigits integer → IsDigits fraction →
+      (∀ d r, integer = d :: r → d ≠ 0x30) → 0 < natOfDigits (integer ++ fraction) →
+      integer.length + fraction.length < 2 ^ 29 → -(2 ^ 31 : Int) < e → e < 2 ^ 31 →
+      parseTruncatedFloat single integer fraction e =
+        roundDec (fmtOf single) (natOfDigits (integer ++ fraction)) (e - fraction.length)) :=
+  ⟨fun m e hm => parseConcise_ok single m e hm,
+   fun integer fraction e hdi hdf hh hpos hlen he1 he2 => parseTruncated_ok single integer fraction e hdi hdf hh hpos hlen he1 he2⟩
+
+example : parseConciseFloat true 16777217 0 = 0x4b800000 := by decide +kernel
+
 /-! ## (vi) the composition -/
 
-/-- **c07_correct_partial** (binary64 targets). For every well-formed literal of fewer than `2^29 - 20` digits,
-    `deFloatRoundtrip false p` — `de.rs`'s digit collection followed by `parse_concise_float` /
-    `parse_truncated_float` (fast path, moderate path, bhcomp) and `de.rs`'s infinity check and sign — equals
-    `Model.Num.convertRoundtrip p`: integers classified, otherwise the binary64 nearest to the exact value with ties
-    to even, the sign kept (including `-0.0`), underflow to `±0`, `NumberOutOfRange` iff the rounded value is not
-    finite, and the exponent-overflow rule.
+/-- **c07_correct.** For every well-formed literal of fewer than `2^29 - 20` digits (the documented digit-count
+    bound: beyond `2^31` digits the `i32` exponent arithmetic of `exponent.rs` saturates) and both targets:
+    `deFloatRoundtrip false p` — `de.rs`'s digit collection followed by `parse_concise_float` / `parse_truncated_float`
+    (fast path, moderate path, bhcomp) and `de.rs`'s infinity check and sign — equals `Model.Num.convertRoundtrip p`
+    (the conversion the byte machine uses under `float_roundtrip`): integers classified, otherwise the binary64 nearest
+    to the exact value with ties to even, the sign kept (including `-0.0`), underflow to `±0`, `NumberOutOfRange` iff the
+    rounded value is not finite, and the exponent-overflow rule; `deFloatRoundtrip true p` (`single_precision`, set by
+    `deserialize_f32`) equals `convertRoundtripSingle p`: the same with binary32 rounding, handed on exactly widened.
+    No hypothesis beyond well-formedness of the parts and the digit-count bound. -/
+theorem c07_correct (p : Parts) (wf : WF p) (hlen : (p.int ++ p.frac.getD []).length + 20 < 2 ^ 29) :
+    deFloatRoundtrip false p = convertRoundtrip p ∧ deFloatRoundtrip true p = convertRoundtripSingle p :=
+  ⟨by rw [deFloat_eq false p wf hlen, specG_false], by rw [deFloat_eq true p wf hlen, specG_true]⟩
 
-    PARTIAL — the two hypotheses that remain:
-    * `hmod : ModOk false p` — **the missing lemma `moderate_path_sound`** for the one call `de.rs` makes on `p`
-      (`ModerateOk`): if `error_is_accurate` accepts the 80-bit product, rounding it is rounding the exact value; if it
-      rejects, the exact value lies in the neighbourhood of the downward-rounded product (or both are infinite). It is
-      *false* on the pinned tree for the literals of known finding C07-moderate-truncated (truncated mantissa
-      `< 2^61`, mantissa exponent `-230`), so it cannot be discharged unconditionally before that is repaired.
-    * `hz : NoZeroTail false p` — not the shape of known finding C07-zero-tail. -/
-theorem c07_correct_partial (p : Parts) (wf : WF p) (hlen : (p.int ++ p.frac.getD []).length + 20 < 2 ^ 29)
-    (hz : NoZeroTail false p) (hmod : ModOk false p) :
-    deFloatRoundtrip false p = convertRoundtrip p := deFloat64_eq p wf hlen hz hmod
+/-- non-vacuity: `0.5` (fast path), and the witness of finding C07-f32-negint, `-9223372586610589697` as `f32`:
+    `0xdf000001` widened (the pinned tree returned `0xdf000000`) -/
+example : deFloatRoundtrip false (Parts.mk false [0x30] (some [0x35]) none []) = .f64 0x3fe0000000000000 ∧
+    deFloatRoundtrip true (Parts.mk true [0x39,0x32,0x32,0x33,0x33,0x37,0x32,0x35,0x38,0x36,0x36,0x31,0x30,0x35,0x38,0x39,0x36,0x39,0x37]
+      none none []) = .f64 (F32.toF64 0xdf000001) := by decide +kernel
 
-/-- non-vacuity: for `0.5` the call is `parse_concise_float(5, -1)`, decided by the fast path; both hypotheses hold
-    (the moderate path is not consulted) and both sides are `0x3fe0000000000000` -/
-example : deFloatRoundtrip false (Parts.mk false [0x30] (some [0x35]) none []) =
-    .f64 0x3fe0000000000000 := by decide +kernel
+/-- **c07_nearest_even** (the statement in the standard's words, against the independent specification
+    `Spec.Decimal` / `Spec.Ieee`). For a well-formed literal on the float path (`intClass p = none`: it has a fraction
+    or an exponent, or is an integer beyond `u64`/`i64`, or `-0`) whose exponent digits pass the `i32` guard, with
+    `num/den = (toNumLit p).exact` its exact value:
+    * unless `num/den` overflows (`≥ 2^1024 − 2^970`), the `f64` result is *the* IEEE round-to-nearest-even image
+      (`IsNearestEven64`: finite, sign = the literal's sign — `-0.0` and `-1e-400` included —, no other double closer,
+      even significand on a tie), and if it overflows the literal is rejected (`NumberOutOfRange`): rejected exactly when
+      the nearest value would be infinite;
+    * likewise for an `f32` target with `IsNearestEven32` / `Overflows32` (`≥ 2^128 − 2^103`), the value handed on being
+      the exact widening. -/
+theorem c07_nearest_even (p : Parts) (wf : WF p) (hlen : (p.int ++ p.frac.getD []).length + 20 < 2 ^ 29)
+    (hic : intClass p = none) (hfit : ExpFits p) :
+    (¬ Overflows64 (toNumLit p).exact.1 (toNumLit p).exact.2 →
+      ∃ r, deFloatRoundtrip false p = .f64 r ∧ IsNearestEven64 p.neg (toNumLit p).exact.1 (toNumLit p).exact.2 r) ∧
+    (Overflows64 (toNumLit p).exact.1 (toNumLit p).exact.2 → deFloatRoundtrip false p = .outOfRange) ∧
+    (¬ Overflows32 (toNumLit p).exact.1 (toNumLit p).exact.2 →
+      ∃ r, deFloatRoundtrip true p = .f64 (F32.toF64 r) ∧ IsNearestEven32 p.neg (toNumLit p).exact.1 (toNumLit p).exact.2 r) ∧
+    (Overflows32 (toNumLit p).exact.1 (toNumLit p).exact.2 → deFloatRoundtrip true p = .outOfRange) := by
+  have hden : 0 < (toNumLit p).exact.2 := by rw [exact_eq_scale]; exact scale10_den_pos _ _
+  obtain ⟨a1, a2⟩ := SJ.Proofs.Ieee.roundNE64_correct p.neg _ _ hden
+  obtain ⟨b1, b2⟩ := SJ.Proofs.Ieee.roundNE32_correct p.neg _ _ hden
+  rw [deFloat64_nearest p wf hlen hic hfit, deFloat32_nearest p wf hlen hic hfit]
+  refine ⟨fun h => ?_, fun h => ?_, fun h => ?_, fun h => ?_⟩
+  · obtain ⟨r, hr, hn⟩ := a1 h; exact ⟨r, by rw [hr], hn⟩
+  · rw [a2 h]
+  · obtain ⟨r, hr, hn⟩ := b1 h; exact ⟨r, by rw [hr], hn⟩
+  · rw [b2 h]
+
+/-- non-vacuity: `-0.0` and `-1e-400` are `-0.0` (`0x8000000000000000`), `1e400` is rejected, for both targets -/
+example :
+    deFloatRoundtrip false (Parts.mk true [0x30] (some [0x30]) none []) = .f64 0x8000000000000000 ∧
+    deFloatRoundtrip false (Parts.mk true [0x31] none (some (true, [0x34,0x30,0x30])) []) = .f64 0x8000000000000000 ∧
+    deFloatRoundtrip true (Parts.mk true [0x31] none (some (true, [0x34,0x30,0x30])) []) = .f64 0x8000000000000000 ∧
+    deFloatRoundtrip false (Parts.mk false [0x31] none (some (false, [0x34,0x30,0x30])) []) = .outOfRange ∧
+    deFloatRoundtrip true (Parts.mk false [0x31] none (some (false, [0x34,0x30])) []) = .outOfRange := by decide +kernel
+
+/-- **c07_underflow.** A float-path literal whose exact value is below half the least subnormal (`2^-1075`, resp.
+    `2^-150` for `f32`) gives `±0` with the literal's sign. -/
+theorem c07_underflow (p : Parts) (wf : WF p) (hlen : (p.int ++ p.frac.getD []).length + 20 < 2 ^ 29)
+    (hic : intClass p = none) (hfit : ExpFits p) :
+    ((toNumLit p).exact.1 * 2 ^ 1075 < (toNumLit p).exact.2 → deFloatRoundtrip false p = .f64 (F64.zero p.neg)) ∧
+    ((toNumLit p).exact.1 * 2 ^ 150 < (toNumLit p).exact.2 → deFloatRoundtrip true p = .f64 (F64.zero p.neg)) := by
+  constructor
+  · intro h
+    rw [deFloat64_nearest p wf hlen hic hfit, SJ.Proofs.Ieee.roundNE64_eq]
+    have hz : roundMag b64 ((toNumLit p).exact.1 * 2 ^ 1074) (toNumLit p).exact.2 = 0 := by
+      apply roundMag_small
+      have : (2 : Nat) ^ 1075 = 2 ^ 1074 * 2 := by rw [← Nat.pow_succ]
+      rw [this] at h
+      calc 2 * ((toNumLit p).exact.1 * 2 ^ 1074) = (toNumLit p).exact.1 * (2 ^ 1074 * 2) := by ring
+        _ < (toNumLit p).exact.2 := h
+    rw [hz, if_pos (by decide)]
+    simp only []
+    rw [zero_eq]; rfl
+  · intro h
+    rw [deFloat32_nearest p wf hlen hic hfit, SJ.Proofs.Ieee.roundNE32_eq]
+    have hz : roundMag b32 ((toNumLit p).exact.1 * 2 ^ 149) (toNumLit p).exact.2 = 0 := by
+      apply roundMag_small
+      have : (2 : Nat) ^ 150 = 2 ^ 149 * 2 := by rw [← Nat.pow_succ]
+      rw [this] at h
+      calc 2 * ((toNumLit p).exact.1 * 2 ^ 149) = (toNumLit p).exact.1 * (2 ^ 149 * 2) := by ring
+        _ < (toNumLit p).exact.2 := h
+    rw [hz, if_pos (by decide)]
+    simp only []
+    rw [zero_toF64]; rfl
+
+/-- **c07_other_literals.** Off the float path: an integer literal within `u64` / `i64` is returned exactly
+    (`ParserNumber::U64/I64`, whichever the target), and an exponent whose digits overflow `i32` is decided by
+    `parse_exponent_overflow` — out of range iff some significand digit is non-zero and the exponent is positive,
+    `±0` otherwise — for both targets. -/
+theorem c07_other_literals (single : Bool) (p : Parts) (wf : WF p) (hlen : (p.int ++ p.frac.getD []).length + 20 < 2 ^ 29) :
+    (∀ r, intClass p = some r → deFloatRoundtrip single p = r) ∧
+    (∀ en eds, p.exp = some (en, eds) → expOverflows eds = true →
+      deFloatRoundtrip single p = exponentOverflow (!p.neg) ((p.int ++ p.frac.getD []).all (· == 0x30)) (!en)) := by
+  constructor
+  · intro r hr
+    rw [deFloat_eq single p wf hlen, specG_eq, hr]
+  · intro en eds hexp hov
+    rw [deFloat_eq single p wf hlen, specG_overflow single p en eds hexp hov]
+
+example : deFloatRoundtrip true (Parts.mk true [0x37] none none []) = .i64 (-7) ∧
+    deFloatRoundtrip false (Parts.mk false [0x30] (some [0x30]) (some (false, [0x39,0x39,0x39,0x39,0x39,0x39,0x39,0x39,0x39,0x39])) [])
+      = .f64 0 := by decide +kernel
+
+/-- **c07_all_sources.** The byte-step parser (`Model.Machine.parseTop`: `from_str`, `from_slice`, `from_reader`
+    alike, target `Value`; nested values go through the same `numValue`) under `float_roundtrip` without
+    `arbitrary_precision` returns, for a bare RFC 8259 number literal `p`, exactly the number `de.rs` + lexical compute
+    (`deFloatRoundtrip`), and fails with `NumberOutOfRange` exactly when that is out of range; `Spec.Canon.numOf` — the
+    number in the denotation of C01/C02/C04 — is that number. -/
+theorem c07_all_sources (env : Model.Machine.Env) (henv : env.tgt = .value) (hfr : env.cfg.fr = true)
+    (hap : env.cfg.ap = false) (p : Spec.Grammar.NumParts) (hwf : p.WF = true)
+    (hlen : p.int.length + p.frac.length + 20 < 2 ^ 29) :
+    Spec.Canon.numOf (SJ.Proofs.CanonM.specCfg env.cfg) p =
+      SJ.Proofs.NumLink.numOfNRes (deFloatRoundtrip false (Spec.Canon.partsOf p)) ∧
+    (∀ x, SJ.Proofs.NumLink.numOfNRes (deFloatRoundtrip false (Spec.Canon.partsOf p)) = some x →
+      Model.Machine.parseTop env p.bytes = .ok (.num x)) ∧
+    (SJ.Proofs.NumLink.numOfNRes (deFloatRoundtrip false (Spec.Canon.partsOf p)) = none →
+      ∃ idx, idx ≤ p.bytes.length ∧ Model.Machine.parseTop env p.bytes = .err .NumberOutOfRange idx) :=
+  ⟨numOf_fr _ hfr hap p hwf hlen, (parseTop_fr env henv hfr hap p hwf hlen).1, (parseTop_fr env henv hfr hap p hwf hlen).2⟩
+
+/-- `1e-7` from a reader under `float_roundtrip` -/
+example : (Model.Machine.parseTop ⟨{ fr := true }, .reader, .value⟩ [0x31, 0x65, 0x2d, 0x37]).isOk
+    (.num (.float 0x3e7ad7f29abcaf48)) = true := by decide +kernel
+
+/-- **c07_roundtrip.** Under the named hypothesis `RyuShortest ext` (module `Proofs/LexTopRoundtrip`: the text `ryu`
+    prints for a finite float is an RFC 8259 number (`ExtOK`) of at most 24 bytes — at most 17 significant digits for
+    `f64`, 9 for `f32` —, written with a fraction or an exponent, exponent part at most `e-308`-sized, whose exact value
+    rounds to nearest-even to the float printed), serialise-then-deserialise returns every finite `f64` and every finite
+    `f32` bit for bit (`-0.0` and subnormals included) under `float_roundtrip`: the parser's result on the printed text is
+    the float (`f32`: de.rs hands its exact widening to the visitor, and the visitor's `as f32` — `F64.toF32` — maps
+    that back to the same pattern: second conjunct). -/
+theorem c07_roundtrip (ext : Spec.Program.Ext) (hext : Spec.Program.ExtOK ext) (hr : RyuShortest ext) :
+    (∀ b : UInt64, Spec.Program.finite64 b = true →
+      deFloatRoundtrip false (Spec.Canon.partsOf (Spec.Number.splitNumber (ext.ryu64 b))) = .f64 b) ∧
+    (∀ b : UInt32, Spec.Program.finite32 b = true →
+      deFloatRoundtrip true (Spec.Canon.partsOf (Spec.Number.splitNumber (ext.ryu32 b))) = .f64 (F32.toF64 b) ∧
+      F64.toF32 (F32.toF64 b) = b) :=
+  ⟨fun b hb => roundtrip64 ext hext hr b hb,
+   fun b hb => ⟨roundtrip32 ext hext hr b hb,
+     SJ.Proofs.LexTopF32.toF32_toF64 b (by rw [← SJ.Proofs.LexTopF32.finite32_eq_isFinite]; exact hb)⟩⟩
+
+/-- non-vacuity of `RyuText`/the nearest-value clause on `5e-324` (the least subnormal, as `ryu` prints it) -/
+example : RyuText [0x35, 0x65, 0x2d, 0x33, 0x32, 0x34] ∧
+    deFloatRoundtrip false (Spec.Canon.partsOf (Spec.Number.splitNumber [0x35, 0x65, 0x2d, 0x33, 0x32, 0x34])) = .f64 1 := by
+  refine ⟨⟨by decide, by decide, by decide⟩, by decide +kernel⟩
 
 end SJ.Props.C07
